@@ -19,7 +19,7 @@ FK = {'mean': 'FMean', 'min': 'FMin', 'max': 'FMax', 'sum': 'FSum', 'half': 'FHa
 
 RULE = ('IOAPI file with 1-4 time steps (hourly or 2-hourly, inside one day), 1-4 layers, 1-3 rows/columns or a PERIM axis, 1-3 listed '
         'variables, built by ioapi_base.from_arrays (gridded or boundary), from GRIDDESC text (griddesc reader, gridded or boundary), or written to netCDF and re-opened with the ioapi reader; then 1-4 '
-        'operations out of copy, subsetVariables (incl. empty and unknown selections), renameVariable, sliceDimensions (one or two of '
+        'operations out of copy, subsetVariables (incl. empty and unknown selections), renameVariable (onto a fresh or an EXISTING name), deleting a variable + updatemeta(), sliceDimensions (one or two of '
         'TSTEP/LAY/ROW/COL per call; int incl. negative, slice incl. negative steps, unsorted index list), applyAlongDimensions (mean/min/max/sum or x[::2] on TSTEP/LAY/ROW/COL), eval, mask, stack on TSTEP, interpSigma; '
         'the ten metadata encodings are read after every step. Non-trivial = some successful step changed them.')
 TRUSTED = ['the observation (NVARS, VAR-LIST chunks, VAR/TSTEP/LAY/ROW/COL lengths, TFLAG.shape[1] and TFLAG[:,0,:], NLAYS NROWS NCOLS, len(VGLVLS), SDATE STIME TSTEP) '
@@ -173,6 +173,13 @@ def prepare(f, op):
         return (lambda: f.stack(other, 'TSTEP')), oo
     if k == 'interp':
         return (lambda: f.interpSigma(np.linspace(1, 0, op['m'] + 1))), None
+    if k == 'delete':
+        def _delete():
+            g = f.copy()
+            del g.variables[op['key']]
+            g.updatemeta()
+            return g
+        return _delete, None
     raise ValueError(k)
 
 
@@ -275,6 +282,8 @@ def cop(op, oo, st):
         return '(IStack %d %s)' % (oo['nt'], crows(oo['tflag'][1] if oo['tflag'] else []))
     if k == 'interp':
         return '(IInterp %d)' % op['m']
+    if k == 'delete':
+        return '(IDelete %d)' % nid(op['key'])
     raise ValueError(k)
 
 
@@ -363,19 +372,32 @@ def shrink(case):
 def gen_init(rng):
     grid = rng.random() < 0.75
     how = rng.choice(['arrays', 'arrays', 'disk', 'griddesc'])
-    vs = rng.sample(['O3', 'NO', 'CO'], rng.randint(1, 3))
+    vs = rng.sample(['O3', 'NO', 'CO'], rng.choice([1, 2, 2, 3, 3]))
     return dict(how=how, grid=grid, nt=rng.randint(1, 4), nl=rng.randint(1, 4), nr=rng.randint(1, 3), nc=rng.randint(1, 3),
                 nperim=rng.choice([4, 6, 14]), vars=vs, sdate=rng.choice([2000001, 1999365, 2004060]),
                 stime=rng.randint(0, 3) * 10000, tstep=rng.choice([10000, 10000, 20000]))
 
 
-def gen_op(rng, st, first_disk, malformed):
+def gen_op(rng, st, first_disk, malformed, search=False):
     dv = [NAMES[i] for i in st['dvars']]
     fresh = [v for v in ['N', 'M', 'OZONE', 'NO2'] if v not in dv and v not in st['varlist']]
     kinds = ['copy', 'subset', 'subset', 'rename', 'slice', 'slice', 'slice', 'apply', 'apply', 'apply', 'eval', 'eval', 'mask', 'stack', 'interp']
+    kinds += ['rename_onto', 'delete']                    # steps that reduce the number of listed variables
+    if search:
+        kinds += ['rename_onto', 'delete', 'rename_onto', 'delete', 'eval', 'rename', 'subset']
     if first_disk:
         kinds = [k for k in kinds if k not in ('eval', 'stack')]
     k = rng.choice(kinds)
+    if k == 'rename_onto':
+        # rename onto an EXISTING variable (it is overwritten; one VAR-LIST entry disappears)
+        if len(dv) < 2:
+            return dict(op='copy')
+        old, new = rng.sample(dv, 2)
+        return dict(op='rename', old=old, new=new)
+    if k == 'delete':
+        if not dv:
+            return dict(op='copy')
+        return dict(op='delete', key='Q' if malformed else rng.choice(dv))
     if k == 'copy':
         return dict(op='copy')
     if k == 'subset':
@@ -456,7 +478,7 @@ def gen(rng, n, tier):
         for i in range(n):
             init = gen_init(rng)
             malformed = rng.random() < 0.12
-            nops = rng.randint(1, 4)
+            nops = rng.randint(1, 5 if tier == 'search' else 4)
             ops = []
             try:
                 with np.errstate(all='ignore'):
@@ -466,7 +488,7 @@ def gen(rng, n, tier):
                         # TFLAG re-creation is modelled inside one day only: stop before a rebuild could roll over
                         if st['stime'] + (2 * st['nt']) * st['tstep'] >= 240000 or st['tstep'] % 10000 or st['nt'] > 8 or st['tstep'] <= 0:
                             break
-                        op = gen_op(rng, st, j == 0 and init['how'] == 'disk', malformed and j == nops - 1)
+                        op = gen_op(rng, st, j == 0 and init['how'] == 'disk', malformed and j == nops - 1, search=(tier == 'search'))
                         ops.append(op)
                         try:
                             thunk, _ = prepare(f, op)
